@@ -469,6 +469,8 @@ def check(ctx):
     # shared clauses
     sub = type(ctx)(ctx.pid, ctx.an, ctx.tier)
     c02_check_container(sub)
+    from .c02 import check_container_items_encoded
+    check_container_items_encoded(sub)
     c01.check_validators(sub)
     c01.check_validate_chain(sub)
     c01.check_taint(sub)      # typed containers accept exactly the items their item field accepts
